@@ -268,6 +268,45 @@ def _run_default_shapes(griffe, acc):
                     acc.violation(f"default-shape/unreported-required/{kind}", f"a={d1} -> a: no 'now required' breakage ({kinds})", case, None, size=len(d1))
 
 
+# defaults as the INSPECTOR sees them (runtime values, not source text): every default is kept (the parameter stays optional) and two different values are two different defaults
+DYN_PRELUDE = "import enum, os\nclass Mode(enum.Enum):\n    FAST = 1\n    SAFE = 2\nclass Pt:\n    def __init__(self, v):\n        self.v = v\n    def __repr__(self):\n        return f'<Pt {self.v}>'\n_MISSING = object()\n"
+DYN_DEFAULTS = ["0", "1", "'<'", "'<b>'", "'a<b'", "Mode.FAST", "Mode.SAFE", "Pt(1)", "Pt(2)", "_MISSING", "None", "(1, 2)", "[1]", "{'k': 1}", "1.5", "b'x'", "-1", "True"]
+
+
+def _run_dynamic_defaults(griffe, acc):
+    import sys
+
+    from mc.core import sandbox
+
+    with sandbox.scratch_dir("c10dd") as d, sandbox.interpreter_state():
+        mods = {}
+        for i, dflt in enumerate([None] + DYN_DEFAULTS):
+            for kind in ("pk", "ko", "po"):
+                star = "*, " if kind == "ko" else ""
+                slash = ", /" if kind == "po" else ""
+                name = f"c10dd_{i}_{kind}"
+                with open(f"{d}/{name}.py", "w") as f:
+                    f.write(DYN_PRELUDE + f"def f({star}a{'' if dflt is None else '=' + dflt}{slash}): ...\n")
+                mods[(dflt, kind)] = griffe.inspect(name, filepath=Path(f"{d}/{name}.py"), import_paths=[d])
+                sys.modules.pop(name, None)
+        for kind in ("pk", "ko", "po"):
+            for dflt in DYN_DEFAULTS:
+                p = mods[(dflt, kind)]["f"].parameters["a"]
+                acc.case({"default": dflt, "kind": kind, "agent": "dynamic"}, outcome="dynamic-default:" + ("kept" if p.default is not None else "lost"), nontrivial=True)
+                if p.default is None or p.required:
+                    acc.violation(f"dynamic-default/lost/{kind}", f"def f(a={dflt}) inspected: no default (parameter required)", {"default": dflt, "kind": kind, "dynamic_defaults": True}, None, size=len(dflt))
+            for d1 in DYN_DEFAULTS:
+                for d2 in DYN_DEFAULTS:
+                    kinds = [b.kind.value for b in griffe.find_breaking_changes(mods[(d1, kind)], mods[(d2, kind)]) if b.obj.name == "f"]
+                    case = {"old_default": d1, "new_default": d2, "kind": kind, "dynamic_defaults": True}
+                    acc.case(case, outcome="dynamic-defaults:" + ("reported" if kinds else "silent"), nontrivial=d1 != d2)
+                    if d1 == d2 and kinds and d1 != "_MISSING":
+                        acc.violation(f"dynamic-default/spurious/{kind}", f"identical signatures a={d1} (inspected): reported {kinds}", case, None, size=2)
+                    elif d1 != d2 and "Parameter default was changed" not in kinds:
+                        shape = "enum" if "Mode." in d1 and "Mode." in d2 else "angle-bracket-repr" if ("Pt(" in d1 and "Pt(" in d2) else "other"
+                        acc.violation(f"dynamic-default/unreported-change/{shape}/{kind}", f"a={d1} -> a={d2} (inspected): no 'default was changed' breakage ({kinds})", case, None, size=len(d1) + len(d2))
+
+
 def run_shard(shard, tier):
     griffe, sigs, shapes, masks, mods, mapping = _prepare(tier)
     inv = {v: k for k, v in mapping.items()}
@@ -275,6 +314,8 @@ def run_shard(shard, tier):
     seen_min: dict = {}
     if shard == 0:
         _run_default_shapes(griffe, acc)
+    if shard == 1:
+        _run_dynamic_defaults(griffe, acc)
     for i in range(shard, len(sigs), NSHARDS):
         old = sigs[i]
         for j, new in enumerate(sigs):
@@ -320,6 +361,12 @@ def replay(case):
     names = sorted({p[0] for p in old} | {p[0] for p in new} | {"a"})
     shapes = S.call_shapes(names, 4)
     ident = {n: n for n in "abcdefghijklmnopqrstuvwxyz"}
+    if case.get("dynamic_defaults"):
+        from mc.core.driver import Acc as _Acc
+
+        acc = _Acc()
+        _run_dynamic_defaults(griffe, acc)
+        return [(k, v["summary"], v["detail"]) for k, v in acc.violations.items()]
     if case.get("dynamic"):
         dyn = _dynamic_mods(griffe, [old, new], ident)
         kinds_dyn = sorted(b.kind.value for b in griffe.find_breaking_changes(dyn[0], dyn[1]) if b.obj.name == "f")
